@@ -28,10 +28,37 @@ def _devs():
     return ",".join(k["id"] for k in vlib.known_findings(PROP))
 
 
+_MAXSTACK_GO = """package main
+
+// added to the build by /verif (go build -overlay), not part of the repository: lets the harness bound the
+// goroutine stacks of this process, as it bounds those of its own hosts, so that Go recursion without a bound
+// ends in its fatal error within a second (Go's default bound is 1 GB: minutes on a loaded machine).
+
+import (
+	"os"
+	"runtime/debug"
+	"strconv"
+)
+
+func init() {
+	if n, err := strconv.Atoi(os.Getenv("ZV_MAXSTACK")); err == nil && n > 0 {
+		debug.SetMaxStack(n)
+	}
+}
+"""
+
+
 def _build_zygo():
-    """cmd/zygo built from the repository under test (the third configuration is the real binary)."""
+    """cmd/zygo built from the repository under test (the third configuration is the real binary), with one
+    init function added through -overlay that reads the stack bound ZV_MAXSTACK (nothing else differs)."""
     out = os.path.join(vlib.scratch(), "zygo")
-    cmd = ["go", "build", "-o", out, "./cmd/zygo"]
+    src = os.path.join(vlib.scratch(), "zz_verif_maxstack.go")
+    with open(src, "w") as f:
+        f.write(_MAXSTACK_GO)
+    ov = os.path.join(vlib.scratch(), "overlay.json")
+    with open(ov, "w") as f:
+        json.dump({"Replace": {os.path.join(os.path.realpath(vlib.REPO), "cmd", "zygo", "zz_verif_maxstack.go"): src}}, f)
+    cmd = ["go", "build", "-overlay", ov, "-o", out, "./cmd/zygo"]
     p = subprocess.run(cmd, cwd=vlib.REPO, env=vlib.goenv(), capture_output=True, text=True)
     if p.returncode != 0:
         e = vlib.goenv()
